@@ -171,8 +171,11 @@ Lemma tag_length_at_source : nlit gen_lits_GCMEncrypt 42 = 128%nat /\ nlit gen_l
 Proof. split; reflexivity. Qed.
 
 (* ---------- package-level variables ---------------------------------------------------------------------------- *)
-(* the package-level variables the model of sm4.go knows: IV (record pkg) and the constant tables (Gen/SM4Tables.v) *)
-Definition sm4_pkg_vars_expected : list string := ["IV"; "fk"; "ck"; "sbox"; "sbox0"; "sbox1"; "sbox2"; "sbox3"]%string.
+(* the package-level variables the model of sm4.go knows: IV (record pkg), the mutex ivMu that orders SetIV's write
+   of IV against the helpers' reads (D51; no effect on values: the helpers use the IV in force at call time, which
+   is what the model's pkg record says - the locking itself is C20's subject), and the constant tables
+   (Gen/SM4Tables.v) *)
+Definition sm4_pkg_vars_expected : list string := ["IV"; "ivMu"; "fk"; "ck"; "sbox"; "sbox0"; "sbox1"; "sbox2"; "sbox3"]%string.
 
 Lemma pkg_vars_at_source :
   gen_pkg_vars_sm4 = sm4_pkg_vars_expected /\
